@@ -258,7 +258,7 @@ def roadm_entries(draw, amp_names=(), impairments=True, band=(191.3e12, 196.1e12
 def penalties(draw):
     out = []
     if draw(st.booleans()):
-        hi = draw(st.sampled_from([4e3, 1.8e4, 4e4, 1e5]))
+        hi = draw(st.sampled_from([500.0, 2e3, 4e3, 1.8e4, 4e4, 1e5]))
         out += [{'chromatic_dispersion': -hi / 10, 'penalty_value': 0}, {'chromatic_dispersion': hi / 2, 'penalty_value': 0},
                 {'chromatic_dispersion': hi, 'penalty_value': draw(st.sampled_from([0.5, 1.0, 2.0]))}]
     if draw(st.booleans()):
